@@ -689,7 +689,9 @@ impl Ctx {
             Ok(RespValue::Error(t)) => {
                 // replies of the executor start with an error code word; the translator's own texts never do
                 // (except the unknown-command text)
-                let executor_reply = (t.starts_with("ERR ") || t.starts_with("WRONGTYPE")) && !translator_error_shape(&t);
+                // (except the unknown-command text, and a text the RESP parser answers for the same frame)
+                let same_as_parser = matches!(&a, Parsed::Err(e) if e.as_str() == t.as_ref());
+                let executor_reply = (t.starts_with("ERR ") || t.starts_with("WRONGTYPE")) && !translator_error_shape(&t) && !same_as_parser;
                 if executor_reply {
                     LuaOutcome::Accepted(RespValue::Error(t))
                 } else {
